@@ -143,6 +143,7 @@ HARNESSES = {
         "accessors_in_bounds_and_zero_rows": {"complete": True, "note": "symbolic (piece<7, square<64, color<=1) and any e.p. square"},
         "castle_keys": {"complete": True, "note": "concrete: the four castle constants"},
         "keys_nonzero_distinct": {"complete": True, "note": "symbolic pair of indices over all 781 keys"},
+        "two_piece_exchange_changes_hash": {"complete": True, "note": "symbolic (piece, colour) x2 and two squares: exchanging two different pieces between two squares changes the hash"},
     },
     # set -> harness -> meta
     "rules": {
